@@ -102,8 +102,14 @@ func refESDescs(kind string) []byte {
 		return []byte{0x52, 1, 0x42}
 	case "lang":
 		return []byte{0x0a, 4, 'e', 'n', 'g', 1}
+	case "emptylast":
+		return []byte{0x52, 1, 0x43, 0x90, 0}
+	case "emptyonly":
+		return []byte{0x91, 0}
+	case "":
+		return nil
 	}
-	return nil
+	panic("refESDescs: unknown descriptor kind " + kind)
 }
 
 func (m *MuxMon) pmtFits() bool { return 1+len(m.expectedPMT(0)) <= 184 }
@@ -297,10 +303,12 @@ func (m *MuxMon) Step(h *MuxH, i int) (vs []Viol) {
 	}
 	if emitted && !tablesPossible {
 		add("C17", "tables-emitted-invalid-config", "tables emitted with pcrValid=%v pmtFits=%v", m.pcrValid(), m.pmtFits())
+		add("C04", "invalid-table-configuration-accepted", "a call that has to be rejected (PCR PID valid=%v, PMT fits one packet=%v) wrote tables", m.pcrValid(), m.pmtFits())
 	}
 	if emitted {
 		if nt != 2 || ps[0].PID != 0 || ps[1].PID != 0x1000 {
 			add("C17", "table-pair-shape", "expected exactly PAT then PMT, got %d table packets", nt)
+			add("C04", "table-pair-shape", "expected exactly one PAT and one PMT packet (each a complete unit), got %d table packets", nt)
 		} else {
 			m.checkTables(h, c, ps[0], ps[1], add)
 		}
